@@ -247,4 +247,26 @@ PROPS["C17"] = {
     "level_note": "Collaborators havocked as listed; engine and z3 trusted.",
 }
 
+PROPS["C20"] = {
+    "contracts": ["contracts/C20_genome.py"],
+    "level": "other",
+    "extra": [{"name": "C20/bounded[op sequences depth 3]", "kind": "bounded", "tiers": ("quick",), "cmd": ["/venv/bin/python", "native/c20_bounded.py", "3"]},
+              {"name": "C20/bounded[op sequences depth 4]", "kind": "bounded", "tiers": ("thorough",), "timeout": 3000, "cmd": ["/venv/bin/python", "native/c20_bounded.py", "4"]}],
+    "assumptions": ["universal statements over the gene map are proved for an arbitrary gene name q / arbitrary key index j (ghost parameters)",
+                    "dict keys are pairwise distinct and the j-th key is a key (trusted structural facts, instantiated in the express loop)",
+                    "'every refused attempt is logged' is read for mutate/rollback (the operations with a log); a refused re-add is reported by its False return",
+                    "replicate: the child is built by the real constructor, which is havocked in the deductive part (opaque Genome()): only 'parent untouched' is proved there; "
+                    "'child differs only in authorised genes' is covered by the bounded stand-in",
+                    "get_hash is a deterministic function of the value map (json.dumps/md5 uninterpreted): 'hash unchanged' follows from 'values unchanged'",
+                    "gene values are opaque user data"],
+    "trusted_base": ["symbolic maps of objects with override lists; aliasing resolved by case split on key equality"],
+    "explanation": "Deductive part: add_gene / mutate / rollback_mutation / set_expression / silence / activate against the abstract value map for an arbitrary gene: "
+                   "unauthorised attempts change nothing and are logged unapproved, authorised ones set exactly that gene and are logged approved, rollback goes through "
+                   "the same gate with the original value of the found approved mutation, expression operations never touch values or the log; express returns exactly the "
+                   "non-silenced, non-dormant genes (conditional only when named) with their stored values (inductive loop invariant over the key order); replicate leaves "
+                   "the parent untouched. Bounded part: all operation sequences of depth 3 (4 thorough) against a reference model, incl. child-vs-parent.",
+    "level_text": "Mixed proof + bounded.",
+    "level_note": "Constructor havocked in replicate; engine and z3 trusted.",
+}
+
 NOT_APPLICABLE = {}
